@@ -12,8 +12,8 @@ EXTENDS Integers, Sequences, FiniteSets, TLC, Json, IOUtils, JobQueueProps
 Trace == ndJsonDeserialize(IOEnv.VERIF_TRACE)
 N == Len(Trace)
 
-VARIABLES l, pass, seen, jpass, viol
-vars == <<l, pass, seen, jpass, viol>>
+VARIABLES l, pass, seen, jpass, hf, viol
+vars == <<l, pass, seen, jpass, hf, viol>>
 
 NoPass == [t0 |-> -1, view |-> <<>>]
 MaxCOf(s) == [c \in 1..2 |-> IF ToString(c) \in DOMAIN s.maxc THEN s.maxc[ToString(c)] ELSE 1]
@@ -29,6 +29,8 @@ Quiet(s) == s.quiet /\ TimersNotDue(s)
 \* The goals are then judged on the state it was left in, and the livelock itself is a C20 failure.
 Stuck(e) == e.ev = "DrainFailed"
 
+\* any injected fault or crash so far in this run (C20 attribution)
+IsFault(e) == ("f" \in DOMAIN e.l /\ e.l.f \notin {"", "ok"}) \/ e.ev \in {"CrashRestart", "Restart", "Crash"}
 Fail(name, ok) == IF ok THEN {} ELSE {name}
 SetOfIds(seq) == {ToString(seq[i]) : i \in 1..Len(seq)}
 
@@ -66,7 +68,7 @@ StepFails(p, s, ps) ==
     \cup Fail("C07_RefusedOnlyWhenDue", C07_RefusedOnlyWhenDueStep(p.api, s.api, s.now))
     \cup Fail("C15_Monotone", \A c \in DOMAIN s.jcapi : c \in DOMAIN p.jcapi => C15_MonotoneStep(p.jcapi[c], s.jcapi[c]))
 
-Init == l = 1 /\ pass = NoPass /\ seen = NoSeen /\ jpass = [c |-> "", v |-> [sch |-> 0, exe |-> 0]] /\ viol = {}
+Init == l = 1 /\ pass = NoPass /\ seen = NoSeen /\ jpass = [c |-> "", v |-> [sch |-> 0, exe |-> 0]] /\ hf = FALSE /\ viol = {}
 
 Next ==
     /\ l <= N
@@ -85,7 +87,8 @@ Next ==
                  ELSE IF credit THEN [seen EXCEPT ![jp.c] = Merge(@, jp.v)] ELSE seen
            fs == StateFails(e) \cup CoverFails(s, sn) \cup (IF reset \/ l = 1 THEN {} ELSE StepFails(Trace[l - 1].st, s, ps))
        IN /\ pass' = ps /\ seen' = sn /\ jpass' = jp
-          /\ viol' = viol \cup {[f |-> f, line |-> l, run |-> e.run, ev |-> e.ev, faulted |-> e.faulted] : f \in fs}
+          /\ hf' = IF e.ev = "Reset" THEN FALSE ELSE hf \/ IsFault(e)
+          /\ viol' = viol \cup {r \in {[f |-> f, line |-> l, run |-> e.run, ev |-> e.ev, faulted |-> e.faulted, af |-> (hf \/ IsFault(e))] : f \in fs} : ~\E v \in viol : v.f = r.f /\ v.run = r.run}   \* first failure of a formula in a run only
 Spec == Init /\ [][Next]_vars
 
 \* printed once, in the last state
